@@ -434,7 +434,15 @@ fn scenario(cfg: &RunCfg) -> Outcome {
             2 => {
                 let level = gen::pick(&[Level::Error, Level::Info, Level::Debug]);
                 let msg = format!("m{step}");
-                let tags = gen_tags(6);
+                // (one call in twelve carries 20-70 tags: "in the order given" must not depend
+                // on how few tags an event has)
+                let tags = if gen::ratio(1, 12) {
+                    gen::count("probe.event_with_many_tags");
+                    let n = 20 + gen::below(51);
+                    (0..n).map(|_| (NAMES[gen::below(NAMES.len() as u32) as usize], gen_val())).collect()
+                } else {
+                    gen_tags(6)
+                };
                 let mut all: Vec<(String, Option<String>)> = vec![("msg".to_string(), Some(format!("{msg:?}")))];
                 all.extend(tags.iter().map(|(n, v)| (n.to_string(), Some(v.render()))));
                 all.extend(thread_tags[t].iter().cloned());
@@ -694,7 +702,7 @@ pub fn spec() -> PropertySpec {
         level: "exploration",
         rule: "1-8 REAL OS threads, each executing one logging-API operation only when the seeded scheduler hands it the baton (parked-and-released: the choice of who runs is the tape's, the threads are real because thread-local tags are the point). Programs of 4-43 operations over {add thread tag, clear, error/info/debug with 0-6 tags from a pool that includes the prioritised names, log_request_and_response with Ok / Err (with/without response, tags, message) and an optional inner log call, set_global_logger with a fresh channel, drop the guard, drop a receiver (logger stopped)}. Oracle: sequential reference model executed in baton order (global state None/Default/Some(k), per-thread tag lists, per-logger expected queues); after every operation all receivers are drained and compared: exactly one event per logging call in the right logger, tag order = call tags then the calling thread's tags, stably ordered by the fixed priority, none of another thread's tags, level and code per the wrapper rules, returned response, refusal of a second install, stopped logger => Err not panic. fd 1 is replaced by a pipe for the duration of every run and the stdout default's lines are compared as a multiset. distinct = hash of the operation trace; non-trivial = at least 2 events checked.",
         scenarios: vec![Scenario { name: "c18.threads", property: "C18", func: scenario, runs_quick: 100_000, runs_thorough: 2_500_000, doc: "baton-scheduled caller threads" }],
-        required_probes: vec!["probe.events_checked", "probe.multi_thread", "probe.stdout_default_observed", "fault.logger_receiver_dropped"],
+        required_probes: vec!["probe.events_checked", "probe.event_with_many_tags", "probe.multi_thread", "probe.stdout_default_observed", "fault.logger_receiver_dropped"],
         components: json!({
             "real": ["/repo/src/log/** (unmodified)", "std::sync::Mutex, std::sync::mpsc, thread_local! (cannot be substituted)", "OS threads (parked and released one at a time)"],
             "simulated": ["the choice of which thread performs its next operation (seeded baton)"],
